@@ -475,9 +475,10 @@ class MemorizedFunc(Logger):
 
         # Call the user defined cache validation callback
         metadata = self.store_backend.get_metadata(call_id)
-        if (
-            self.cache_validation_callback is not None
-            and not self.cache_validation_callback(metadata)
+        if self.cache_validation_callback is not None and (
+            # Without metadata (the process was killed before it could be
+            # written) the callback has nothing to decide upon: recompute.
+            not metadata or not self.cache_validation_callback(metadata)
         ):
             self.store_backend.clear_item(call_id)
             return False
